@@ -93,7 +93,7 @@ static int choose(int me, YieldKind k) {
 static void switch_to(int me, int next, bool wait_after) {
     if (next == me) return;
     RT.switches++;
-    if (me >= 0 && RT.T[me].state == T_RUNNABLE) RT.preemptions++;
+    if (me >= 0 && RT.T[me].state == T_RUNNABLE) { RT.preemptions++; if (RT.mark && RT.mark[me]) RT.preempt_marked++; }
     RT.cur = next;
     sem_post(&RT.T[next].sem);
     if (wait_after && me >= 0) {
